@@ -996,6 +996,9 @@ class ExprMixin:
             return Tu((PreSeq(f"{base.path}[{self.ident(lo)}:{self.ident(hi)}]", "any"),))
         if isinstance(base, (Tu, Obj, K)):
             parts = self.iter_parts(base)
+            if (lo == K(None) or lo == K(0)) and hi == K(None):
+                pr = self.norm_parts(list(parts))            # x[:] - a copy of the whole sequence
+                return Tu(pr) if isinstance(base, (Tu, K)) else self.new_list_parts(pr)
             if isinstance(lo, K) and isinstance(lo.v, int) and lo.v >= 0 and hi == K(None):
                 n = lo.v
                 out = list(parts)
